@@ -66,3 +66,56 @@ func c20ReportMismatch(m string) {
 }
 
 func c20Has(s, sub string) bool { return bytes.Contains([]byte(s), []byte(sub)) }
+
+// Reference wire format of the two well-known types the messages embed (google.protobuf.Timestamp and
+// Duration: field 1 seconds int64, field 2 nanos int32, both varints, defaults omitted).  The engine
+// redirects protobuf-go's table-driven (unsafe) encoder for these two types here; natively the real
+// library runs.
+func verifWKTMarshal(seconds int64, nanos int32) []byte {
+	var b []byte
+	if seconds != 0 {
+		b = c20Varint(append(b, 0x08), uint64(seconds))
+	}
+	if nanos != 0 {
+		b = c20Varint(append(b, 0x10), uint64(int64(nanos)))
+	}
+	return b
+}
+
+func c20Varint(b []byte, v uint64) []byte {
+	for v >= 0x80 {
+		b = append(b, byte(v&0x7f|0x80))
+		v >>= 7
+	}
+	return append(b, byte(v))
+}
+
+func verifWKTUnmarshal(b []byte) (seconds int64, nanos int32, ok bool) {
+	for len(b) > 0 {
+		tag := b[0]
+		b = b[1:]
+		if tag != 0x08 && tag != 0x10 {
+			return 0, 0, false // other fields do not occur in what either family writes
+		}
+		var v uint64
+		shift, done := uint(0), false
+		for k := 0; k < 10 && k < len(b); k++ {
+			c := b[k]
+			v |= uint64(c&0x7f) << shift
+			shift += 7
+			if c < 0x80 {
+				b, done = b[k+1:], true
+				break
+			}
+		}
+		if !done {
+			return 0, 0, false
+		}
+		if tag == 0x08 {
+			seconds = int64(v)
+		} else {
+			nanos = int32(v)
+		}
+	}
+	return seconds, nanos, true
+}
